@@ -2219,3 +2219,333 @@ Proof.
   unfold run_walk_s, run_walk, run_walk_raw. destruct (already_processed old (ps st0)); [reflexivity|].
   rewrite run_node_s_never. destruct (run_node old tree st0). reflexivity.
 Qed.
+
+(* ------------------------------------------------------------------ nothing else, without cov_monotone:
+   a meta tile that get_affected_level_tiles selects for a rectangle overlaps that rectangle with positive area *)
+
+(* a rectangle with positive width and height *)
+Definition proper (b : bbox) : Prop := let '(b0, b1, b2, b3) := b in b0 < b2 /\ b1 < b3.
+
+(* the quantum of the integer coordinates is at most 1/10 pixel of every level, so that the 1/10-pixel inset of
+   get_affected_level_tiles (res / 10) is not rounded to zero *)
+Definition fine_res (g : grid) : Prop := forall r, In r (ress g) -> 10 <= r.
+
+(* m and c overlap with positive area, and m has positive area *)
+Definition overlaps (m c : bbox) : Prop :=
+  let '(m0, m1, m2, m3) := m in
+  let '(c0, c1, c2, c3) := c in
+  m0 < m2 /\ m1 < m3 /\ m0 < c2 /\ c0 < m2 /\ m1 < c3 /\ c1 < m3.
+
+Lemma in_up_range_bounds x a b s : 0 < s -> In x (up_range a b s) -> a <= x <= b.
+Proof.
+  intros Hs H. unfold up_range in H. apply in_map_iff in H. destruct H as (k & <- & Hk). apply in_seq in Hk.
+  destruct (Z_lt_le_dec (b - a) 0) as [Hneg|Hpos].
+  - assert ((b - a) / s < 0) by (apply Z.div_lt_upper_bound; lia). lia.
+  - pose proof (Z.mul_div_le (b - a) s Hs). assert (Z.of_nat k <= (b - a) / s) by lia. nia.
+Qed.
+
+Lemma in_down_range_bounds x a b s : 0 < s -> In x (down_range a b s) -> b <= x <= a.
+Proof.
+  intros Hs H. unfold down_range in H. apply in_map_iff in H. destruct H as (k & <- & Hk). apply in_seq in Hk.
+  destruct (Z_lt_le_dec (a - b) 0) as [Hneg|Hpos].
+  - assert ((a - b) / s < 0) by (apply Z.div_lt_upper_bound; lia). lia.
+  - pose proof (Z.mul_div_le (a - b) s Hs). assert (Z.of_nat k <= (a - b) / s) by lia. nia.
+Qed.
+
+(* one axis: a meta column x between the aligned columns of the two corner points owns a stretch between them *)
+Lemma axis_overlap D s p0 p1 x :
+  0 < D -> 0 < s ->
+  p0 / (2 * D) / s * s <= x <= p1 / (2 * D) / s * s ->
+  x / s * s * (2 * D) <= p1 /\ p0 < (x / s * s + s) * (2 * D).
+Proof.
+  intros HD Hs [Hlo Hhi].
+  set (t0 := p0 / (2 * D)) in *. set (t1 := p1 / (2 * D)) in *.
+  assert (H2D : 0 < 2 * D) by lia.
+  pose proof (Z.mul_div_le p1 (2 * D) H2D) as Hp1. fold t1 in Hp1.
+  pose proof (Z.mod_pos_bound p0 (2 * D) H2D) as Hm0. pose proof (Z.div_mod p0 (2 * D)) as Hd0. fold t0 in Hd0.
+  pose proof (Z.mul_div_le t1 s Hs) as Ht1.
+  pose proof (Z.mul_div_le x s Hs) as Hx.
+  assert (Hmx : t0 / s * s <= x / s * s).
+  { apply Z.mul_le_mono_nonneg_r; [lia|]. rewrite <- (Z.div_mul (t0 / s) s) at 1 by lia. apply Z.div_le_mono; lia. }
+  pose proof (Z.mod_pos_bound t0 s Hs) as Hm1. pose proof (Z.div_mod t0 s) as Hd1.
+  set (mx := x / s * s) in *. set (q0 := t0 / s * s) in *.
+  assert (Hq0 : t0 < q0 + s) by (subst q0; lia).
+  split.
+  - assert (mx <= t1) by lia. nia.
+  - assert (t0 + 1 <= mx + s) by lia. nia.
+Qed.
+
+Lemma selected_overlaps g msx msy cur l t :
+  geo_wf g msx msy -> fine_res g -> valid_level g l = true -> proper cur ->
+  In (Some t) (affected_tiles g msx msy cur l) ->
+  overlaps (meta_bbox g msx msy t) cur.
+Proof.
+  intros Hwf Hfine Hv Hp Hin. pose proof (geo_res_pos g msx msy l Hwf Hv) as Hr.
+  assert (Hr10 : 10 <= res_at g l).
+  { unfold valid_level, levels in Hv. unfold res_at. apply Hfine. apply nth_In.
+    apply andb_true_iff in Hv. destruct Hv as [H1 H2]. apply Z.leb_le in H1. apply Z.ltb_lt in H2. lia. }
+  destruct Hwf as (Htw & Hth & _ & Hmx & Hmy).
+  destruct cur as [[[bx0 by0] bx1] by1]. cbn [proper] in Hp. destruct Hp as [Hpx Hpy].
+  unfold affected_tiles, meta_affected, tile2 in Hin. unfold meta_bbox.
+  set (r := res_at g l) in *. set (delta := r / 10) in *.
+  assert (Hd : 0 < delta) by (subst delta; apply Z.div_str_pos; lia).
+  set (minx2 := if bx1 - delta <? bx0 + delta then bx0 + bx1 else 2 * (bx0 + delta)) in *.
+  set (maxx2 := if bx1 - delta <? bx0 + delta then bx0 + bx1 else 2 * (bx1 - delta)) in *.
+  set (miny2 := if by1 - delta <? by0 + delta then by0 + by1 else 2 * (by0 + delta)) in *.
+  set (maxy2 := if by1 - delta <? by0 + delta then by0 + by1 else 2 * (by1 - delta)) in *.
+  assert (Hx : 2 * bx0 < minx2 /\ maxx2 < 2 * bx1) by (subst minx2 maxx2; destruct (bx1 - delta <? bx0 + delta); lia).
+  assert (Hy : 2 * by0 < miny2 /\ maxy2 < 2 * by1) by (subst miny2 maxy2; destruct (by1 - delta <? by0 + delta); lia).
+  clearbody minx2 maxx2 miny2 maxy2.
+  destruct (meta_size g msx msy l) as [sx sy] eqn:Ems.
+  assert (Hs : 0 < sx /\ 0 < sy).
+  { unfold meta_size, grid_size in Ems. injection Ems as <- <-. unfold axis_tiles. lia. }
+  destruct Hs as [Hsx Hsy].
+  set (Dx := r * tw g) in *. set (Dy := r * th g) in *.
+  assert (HDx : 0 < Dx) by (subst Dx; nia). assert (HDy : 0 < Dy) by (subst Dy; nia).
+  set (X0 := (minx2 - 2 * gx0 g) / (2 * Dx) / sx * sx) in *.
+  set (X1 := (maxx2 - 2 * gx0 g) / (2 * Dx) / sx * sx) in *.
+  destruct t as [[x y] lt].
+  destruct (ul g) eqn:Eul.
+  - set (Y0 := (2 * gy1 g - miny2) / (2 * Dy) / sy * sy) in *.
+    set (Y1 := (2 * gy1 g - maxy2) / (2 * Dy) / sy * sy) in *.
+    destruct (up_range X0 X1 sx) as [|hx rx] eqn:Ex; [destruct Hin|].
+    destruct (up_range Y1 Y0 sy) as [|hy ry] eqn:Ey; [destruct Hin|].
+    apply in_create_tile_list in Hin. destruct Hin as (x' & y' & Hxin & Hyin & E & _ & _).
+    injection E as -> -> ->. rewrite <- Ex in Hxin. rewrite <- Ey in Hyin.
+    apply in_up_range_bounds in Hxin; [|assumption]. apply in_up_range_bounds in Hyin; [|assumption].
+    rewrite Ems.
+    destruct (axis_overlap Dx sx _ _ x' HDx Hsx Hxin) as [Ax0 Ax1].
+    destruct (axis_overlap Dy sy _ _ y' HDy Hsy Hyin) as [Ay0 Ay1].
+    set (mx := x' / sx * sx) in *. set (my := y' / sy * sy) in *.
+    unfold tile_bbox, merge_bbox. rewrite Eul. fold r.
+    rewrite <- !(Z.mul_assoc _ r (tw g)), <- !(Z.mul_assoc _ r (th g)). fold Dx Dy.
+    assert (0 <= (sx - 1) * Dx) by nia. assert (0 <= (sy - 1) * Dy) by nia.
+    cbn [overlaps]. lia.
+  - set (Y0 := (miny2 - 2 * gy0 g) / (2 * Dy) / sy * sy) in *.
+    set (Y1 := (maxy2 - 2 * gy0 g) / (2 * Dy) / sy * sy) in *.
+    destruct (up_range X0 X1 sx) as [|hx rx] eqn:Ex; [destruct Hin|].
+    destruct (down_range Y1 Y0 sy) as [|hy ry] eqn:Ey; [destruct Hin|].
+    apply in_create_tile_list in Hin. destruct Hin as (x' & y' & Hxin & Hyin & E & _ & _).
+    injection E as -> -> ->. rewrite <- Ex in Hxin. rewrite <- Ey in Hyin.
+    apply in_up_range_bounds in Hxin; [|assumption]. apply in_down_range_bounds in Hyin; [|assumption].
+    rewrite Ems.
+    destruct (axis_overlap Dx sx _ _ x' HDx Hsx Hxin) as [Ax0 Ax1].
+    destruct (axis_overlap Dy sy _ _ y' HDy Hsy Hyin) as [Ay0 Ay1].
+    set (mx := x' / sx * sx) in *. set (my := y' / sy * sy) in *.
+    unfold tile_bbox, merge_bbox. rewrite Eul. fold r.
+    rewrite <- !(Z.mul_assoc _ r (tw g)), <- !(Z.mul_assoc _ r (th g)). fold Dx Dy.
+    assert (0 <= (sx - 1) * Dx) by nia. assert (0 <= (sy - 1) * Dy) by nia.
+    cbn [overlaps]. lia.
+Qed.
+
+Lemma overlaps_limit_proper cur sb : proper cur -> overlaps sb cur -> proper (limit_sub_bbox cur sb).
+Proof. destruct cur as [[[c0 c1] c2] c3], sb as [[[s0 s1] s2] s3]. cbn. lia. Qed.
+
+Lemma overlaps_inside m cur b : overlaps m cur -> bbox_inside cur b -> bbox_intersects m b = true.
+Proof.
+  destruct cur as [[[c0 c1] c2] c3], m as [[[m0 m1] m2] m3], b as [[[b0 b1] b2] b3]. cbn.
+  intros H1 H2. rewrite !andb_true_iff, !Z.ltb_lt. lia.
+Qed.
+
+(* a property of the coverage alone: when the coverage CONTAINS a rectangle b, no rectangle that overlaps b with
+   positive area is NONE *)
+Definition cov_overlap_monotone (cov : bbox -> Z) : Prop :=
+  forall b m, cov b = -1 -> bbox_intersects m b = true -> cov m <> 0.
+
+Section GeoSound2.
+  Variable g : grid.
+  Variables msx msy : Z.
+  Variable cov : bbox -> Z.
+  Variable rtl : Z.
+  Hypothesis Hwf : geo_wf g msx msy.
+  Hypothesis Hfine : fine_res g.
+  Hypothesis Hmono : cov_overlap_monotone cov.
+
+  Lemma geo_tree_sound2 fuel : forall cur levels l all,
+      proper cur ->
+      (all = true -> exists b, cov b = -1 /\ bbox_inside cur b) ->
+      forall t, In t (tree_tiles (geo_tree g msx msy cov 0 rtl fuel cur levels l all)) ->
+                cov (meta_bbox g msx msy t) <> 0.
+  Proof.
+    induction fuel as [|f IH]; intros cur levels l all Hp Hall t Hin; cbn [geo_tree] in Hin; [destruct Hin|].
+    destruct (valid_level g l) eqn:Hv; cbn [negb] in Hin; [|destruct Hin].
+    assert (Haff : forall t', In (Some t') (match meta_affected g msx msy cur l with MAff _ _ ts => ts | MInvalid => [] end) ->
+                              overlaps (meta_bbox g msx msy t') cur).
+    { intros t' Ht'. apply (selected_overlaps g msx msy cur l t' Hwf Hfine Hv Hp). exact Ht'. }
+    destruct (meta_affected g msx msy cur l) as [nx ny tiles|]; [|destruct Hin].
+    replace (Z.of_nat (length levels) <? 0) with false in Hin by (symmetry; apply Z.ltb_ge; lia).
+    cbn [tree_tiles] in Hin. apply in_flat_map in Hin. destruct Hin as (s & Hs & Ht).
+    apply in_map_iff in Hs. destruct Hs as (ot & <- & Hot).
+    destruct ot as [t0|]; cbn [geo_sub] in Ht; [|destruct Ht].
+    pose proof (Haff t0 Hot) as Hov.
+    set (sb := meta_bbox g msx msy t0) in *.
+    destruct ((if all then -1 else cov sb) =? 0) eqn:E0; [destruct Ht|].
+    apply Z.eqb_neq in E0.
+    assert (Ht0 : cov sb <> 0).
+    { destruct all; [|exact E0]. destruct (Hall eq_refl) as (b & Hb & Hins).
+      apply (Hmono b sb Hb). eapply overlaps_inside; eauto. }
+    destruct (if mem_z l levels then tl levels else levels) as [|l1 lr] eqn:El; cbn [sub_tiles] in Ht.
+    - destruct Ht as [<-|[]]. exact Ht0.
+    - destruct Ht as [<-|Ht]; [exact Ht0|].
+      eapply IH; [| |exact Ht].
+      + apply overlaps_limit_proper; assumption.
+      + intros Hc. apply Z.eqb_eq in Hc.
+        destruct all.
+        * destruct (Hall eq_refl) as (b & Hb & Hins). exists b. split; [assumption|]. apply limit_inside_trans. assumption.
+        * exists sb. split; [assumption|]. apply limit_inside_sub.
+  Qed.
+End GeoSound2.
+
+(* nothing else, with a hypothesis about the coverage only *)
+Lemma walk_sound_overlap_lemma g msx msy cov levels root old t :
+  geo_wf g msx msy -> fine_res g -> levels_wf g levels -> levels <> [] -> proper root ->
+  cov_overlap_monotone cov ->
+  In t (procs (geo_walk g msx msy cov 0 levels root old)) ->
+  cov (meta_bbox g msx msy t) <> 0.
+Proof.
+  intros Hwf Hfine Hl Hne Hp Hm Hin. unfold geo_walk in Hin.
+  apply (resume_nothing_else _ _ _ (geo_walk_err_free g msx msy cov 0 levels root Hwf Hl Hne)) in Hin.
+  apply full_incl_tree_tiles in Hin.
+  eapply geo_tree_sound2; [exact Hwf|exact Hfine|exact Hm|exact Hp| |exact Hin]. discriminate.
+Qed.
+
+(* ---- bbox coverages and multi coverages of bboxes *)
+
+(* the relative tolerance 1e-13 of bbox_contains is below the coordinate quantum: containment is exact *)
+Definition exact_tol (cs : list bbox) : Prop :=
+  forall c, In c cs -> let '(c0, c1, c2, c3) := c in Z.abs (c2 - c0) < ten13 /\ Z.abs (c3 - c1) < ten13.
+
+Lemma contains_tol_exact c b :
+  (let '(c0, c1, c2, c3) := c in Z.abs (c2 - c0) < ten13 /\ Z.abs (c3 - c1) < ten13) ->
+  bbox_contains_tol c b = true -> bbox_inside b c.
+Proof.
+  destruct c as [[[c0 c1] c2] c3], b as [[[b0 b1] b2] b3]. unfold bbox_contains_tol, bbox_inside, ten13.
+  intros [Hx Hy] H. rewrite !andb_true_iff, !Z.leb_le in H. lia.
+Qed.
+
+Lemma intersects_inside m b c : bbox_intersects m b = true -> bbox_inside b c -> bbox_intersects c m = true.
+Proof.
+  destruct c as [[[c0 c1] c2] c3], m as [[[m0 m1] m2] m3], b as [[[b0 b1] b2] b3]. cbn.
+  rewrite !andb_true_iff, !Z.ltb_lt. lia.
+Qed.
+
+Lemma cov_bboxes_overlap_monotone cs : exact_tol cs -> cov_overlap_monotone (cov_bboxes cs).
+Proof.
+  intros Htol b m Hb Hi. unfold cov_bboxes in *.
+  destruct (existsb (fun c => bbox_contains_tol c b) cs) eqn:Eb.
+  - apply existsb_exists in Eb. destruct Eb as (c & Hc & Hcb).
+    pose proof (contains_tol_exact c b (Htol c Hc) Hcb) as Hins.
+    destruct (existsb (fun c0 => bbox_contains_tol c0 m) cs); [discriminate|].
+    replace (existsb (fun c0 => bbox_intersects c0 m) cs) with true; [discriminate|].
+    symmetry. apply existsb_exists. exists c. split; [exact Hc|]. eapply intersects_inside; eauto.
+  - destruct (existsb (fun c => bbox_intersects c b) cs); discriminate.
+Qed.
+
+Lemma cov_bboxes_not_none cs m :
+  cov_bboxes cs m <> 0 <->
+  exists c, In c cs /\ (bbox_contains_tol c m = true \/ bbox_intersects c m = true).
+Proof.
+  unfold cov_bboxes. split.
+  - destruct (existsb (fun c => bbox_contains_tol c m) cs) eqn:E1.
+    + intros _. apply existsb_exists in E1. destruct E1 as (c & Hc & H). eauto.
+    + destruct (existsb (fun c => bbox_intersects c m) cs) eqn:E2; [|congruence].
+      intros _. apply existsb_exists in E2. destruct E2 as (c & Hc & H). eauto.
+  - intros (c & Hc & [H|H]).
+    + replace (existsb (fun c => bbox_contains_tol c m) cs) with true; [discriminate|].
+      symmetry. apply existsb_exists. eauto.
+    + destruct (existsb (fun c => bbox_contains_tol c m) cs); [discriminate|].
+      replace (existsb (fun c => bbox_intersects c m) cs) with true; [discriminate|].
+      symmetry. apply existsb_exists. eauto.
+Qed.
+
+(* nothing else for a seed task whose coverage is a bbox or a multi coverage of bboxes: closed statement *)
+Lemma walk_sound_bboxes_lemma g msx msy cs levels root old t :
+  geo_wf g msx msy -> fine_res g -> levels_wf g levels -> levels <> [] -> proper root -> exact_tol cs ->
+  In t (procs (geo_walk g msx msy (cov_bboxes cs) 0 levels root old)) ->
+  exists c, In c cs /\ (bbox_contains_tol c (meta_bbox g msx msy t) = true \/ bbox_intersects c (meta_bbox g msx msy t) = true).
+Proof.
+  intros Hwf Hfine Hl Hne Hp Htol Hin. apply cov_bboxes_not_none.
+  eapply walk_sound_overlap_lemma; eauto. apply cov_bboxes_overlap_monotone. exact Htol.
+Qed.
+
+(* the old hypothesis is a consequence: cov_monotone holds below proper rectangles *)
+Example ex_fine : fine_res ex_grid.
+Proof. intros r [<-|[<-|[<-|[]]]]; lia. Qed.
+Example ex_exact_tol : exact_tol [ex_cov].
+Proof. intros c [<-|[]]. cbn. unfold ten13. lia. Qed.
+Example ex_proper : proper ex_cov.
+Proof. cbn. lia. Qed.
+Example ex_bboxes_processed :
+  procs (geo_walk ex_grid 1 1 (cov_bboxes [ex_cov]) 0 [0; 1; 2] ex_cov None) <> [].
+Proof. vm_compute. discriminate. Qed.
+
+(* fine_res is needed in the integer model: with a resolution below 10 quanta the inset res / 10 is 0 and a tile that
+   merely touches the rectangle is listed (in the implementation the inset is never zero) *)
+Definition ex_coarse_grid : grid := mkGrid 0 0 8 8 1 1 [4; 2] false 23 20 4 1.
+Lemma walk_sound_coarse_quantum_refuted_lemma :
+  exists g msx msy cs levels root t,
+    geo_wf g msx msy /\ levels_wf g levels /\ levels <> [] /\ proper root /\ exact_tol cs /\
+    In t (procs (geo_walk g msx msy (cov_bboxes cs) 0 levels root None)) /\
+    cov_bboxes cs (meta_bbox g msx msy t) = 0.
+Proof.
+  exists ex_coarse_grid, 1, 1, [(0, 0, 4, 4)], [1], (0, 0, 4, 4), (2, 0, 1).
+  split; [|split; [|split; [|split; [|split; [|split]]]]].
+  - unfold geo_wf. cbn [tw th ress ex_coarse_grid]. repeat split; try lia. intros r [<-|[<-|[]]]; lia.
+  - split; [repeat constructor|]. intros x [<-|[]]. reflexivity.
+  - discriminate.
+  - cbn. lia.
+  - intros c [<-|[]]. cbn. unfold ten13. lia.
+  - vm_compute. tauto.
+  - vm_compute. reflexivity.
+Qed.
+
+(* ------------------------------------------------------------------ nothing outside the start rectangle, for every
+   coverage predicate and every skip_geoms_for_last_levels *)
+Lemma overlaps_mono m a b : overlaps m a -> bbox_inside a b -> overlaps m b.
+Proof.
+  destruct a as [[[a0 a1] a2] a3], m as [[[m0 m1] m2] m3], b as [[[b0 b1] b2] b3]. cbn. lia.
+Qed.
+
+Lemma limit_inside_cur cur sb : bbox_inside (limit_sub_bbox cur sb) cur.
+Proof. destruct cur as [[[c0 c1] c2] c3], sb as [[[s0 s1] s2] s3]. cbn. lia. Qed.
+
+Lemma geo_tree_in_rect g msx msy cov skipk rtl :
+  geo_wf g msx msy -> fine_res g ->
+  forall fuel cur levels l all, proper cur ->
+    forall t, In t (tree_tiles (geo_tree g msx msy cov skipk rtl fuel cur levels l all)) ->
+              overlaps (meta_bbox g msx msy t) cur.
+Proof.
+  intros Hwf Hfine. induction fuel as [|f IH]; intros cur levels l all Hp t Hin; cbn [geo_tree] in Hin; [destruct Hin|].
+  destruct (valid_level g l) eqn:Hv; cbn [negb] in Hin; [|destruct Hin].
+  assert (Haff : forall t', In (Some t') (match meta_affected g msx msy cur l with MAff _ _ ts => ts | MInvalid => [] end) ->
+                            overlaps (meta_bbox g msx msy t') cur).
+  { intros t' Ht'. apply (selected_overlaps g msx msy cur l t' Hwf Hfine Hv Hp). exact Ht'. }
+  destruct (meta_affected g msx msy cur l) as [nx ny tiles|]; [|destruct Hin].
+  cbn [tree_tiles] in Hin. apply in_flat_map in Hin. destruct Hin as (s & Hs & Ht).
+  apply in_map_iff in Hs. destruct Hs as (ot & <- & Hot).
+  destruct ot as [t0|]; cbn [geo_sub] in Ht; [|destruct Ht].
+  pose proof (Haff t0 Hot) as Hov.
+  set (sb := meta_bbox g msx msy t0) in *.
+  match type of Ht with context [if ?c then SNone else _] => destruct c end; [destruct Ht|].
+  destruct (if mem_z l levels then tl levels else levels) as [|l1 lr] eqn:El; cbn [sub_tiles] in Ht.
+  - destruct Ht as [<-|[]]. exact Hov.
+  - destruct Ht as [<-|Ht]; [exact Hov|].
+    eapply overlaps_mono; [|apply (limit_inside_cur cur sb)].
+    eapply IH; [|exact Ht]. apply overlaps_limit_proper; assumption.
+Qed.
+
+Lemma walk_within_start_rect_lemma g msx msy cov skipk levels root old t :
+  geo_wf g msx msy -> fine_res g -> levels_wf g levels -> levels <> [] -> proper root ->
+  In t (procs (geo_walk g msx msy cov skipk levels root old)) ->
+  overlaps (meta_bbox g msx msy t) root.
+Proof.
+  intros Hwf Hfine Hl Hne Hp Hin. unfold geo_walk in Hin.
+  apply (resume_nothing_else _ _ _ (geo_walk_err_free g msx msy cov skipk levels root Hwf Hl Hne)) in Hin.
+  apply full_incl_tree_tiles in Hin.
+  eapply geo_tree_in_rect; eauto.
+Qed.
+
+Example ex_within_start_rect :
+  overlaps (meta_bbox ex_grid 1 1 (2, 2, 2)) ex_cov /\
+  In (2, 2, 2) (procs (geo_walk ex_grid 1 1 (cov_bboxes [ex_cov]) 0 [0; 1; 2] ex_cov None)).
+Proof. vm_compute. repeat split; auto 20. Qed.
